@@ -35,6 +35,10 @@ Definition add3 (arr : list Z) (d0 d1 d2 i0 i1 i2 v : Z) : res (list Z) :=
 
 Definition zeros (n : Z) : list Z := repeat 0 (Z.to_nat n).
 
+(* the stored half of an n^3 rfft mesh has shape (n, n, n // 2 + 1) — a fact about the caller's array, independent of
+   the kernels' own `kzlen` *)
+Definition mesh_kz (n1d : Z) : Z := n1d / 2 + 1.
+
 (* ---- control ------------------------------------------------------------------------------------- *)
 (* while adv x edges[idx b]: b = step b *)
 Fixpoint search (fuel : nat) (adv : Q -> Q -> bool) (idx step : Z -> Z) (E : list Q) (x : Q) (b : Z) : res Z :=
@@ -84,7 +88,7 @@ Section KMU.
     bk <- search (S (length E)) (ku_adv_k P) (ku_kidx P) (ku_kstep P) E kmag2 bk ;;
     bmu <- search (S (length M)) (ku_adv_mu P) (ku_muidx P) (ku_mustep P) M mu2 bmu ;;
     cnt <- add3 cnt T kmu_Nk kmu_Nmu tid bk bmu (ku_mult P k n1d) ;;
-    w <- get3 W n1d n1d kmu_kz i j k ;;
+    w <- get3 W n1d n1d (mesh_kz n1d) i j k ;;
     ws <- add3 ws T kmu_Nk kmu_Nmu tid bk bmu (ku_wmult P k n1d w) ;;
     Ok (true, (bk, bmu, cnt, ws)).
 
@@ -146,7 +150,7 @@ Section KPPI.
     let '(inside, bpi) := r in
     if negb inside then Ok (goes_on (kp_pihigh_exit P), (bpi, cnt, ws)) else
     cnt <- add3 cnt T kppi_Nk kppi_Npi tid bk bpi (kp_mult P k n1d) ;;
-    w <- get3 W n1d n1d kppi_kz i j k ;;
+    w <- get3 W n1d n1d (mesh_kz n1d) i j k ;;
     ws <- add3 ws T kppi_Nk kppi_Npi tid bk bpi (kp_wmult P k n1d w) ;;
     Ok (true, (bpi, cnt, ws)).
 
